@@ -84,6 +84,12 @@ CLAIMED = {
         "Documented places are restated in the harness (line start of field 72, whole {108:} value); other spellings are only used for agreement checks.",
         "DESIGN.md section 3, C17",
     ),
+    "C06": (
+        "runtime monitor: exact-decimal reference model on the amount text + independent ISO-4217 minor-unit table; class-labelled candidates through all amount/rate fields; value preservation through MT, JSON and JSON->MT",
+        "Exploration: 20 amount / rate field types x 47 currencies (0/2/3/4 decimals) x non-decimal spellings (NaN, inf, exponent, signs, blanks, hex, non-ASCII digits ...) x magnitudes of 1-17 integer digits x 0-5 decimals around every length limit: accepted iff a decimal within the field's limit and the currency's precision; every accepted decimal keeps its exact value when serialised, in the JSON number and from JSON back to MT.",
+        "Trusted: the 30-line reference classifier and the ISO-4217 table. Integer without comma, '.' separator, zero and surplus trailing zeros are not judged.",
+        "DESIGN.md section 3, C06",
+    ),
     "C07": (
         "runtime monitor: catch_unwind + panic-hook over all public entry points on hostile/mutated inputs; CPU-time size ramps",
         "Exploration: every public parse / validate / serialise / JSON / error-rendering entry point is executed under a panic monitor on corpus-derived, systematically and randomly mutated inputs (non-ASCII, truncation, structure characters, size ramps); held = no panic/timeout outside the listed known findings on the executions observed.",
